@@ -392,9 +392,10 @@ def r06_6(ctx):
     rg = repo.func("gaftools.gfa", "GFA.read_graph", "R06.6")
     ctx.analysed_func(rg)
     file_loops = []
-    for n in rg.node.body:
+    for n in walk_stmts(rg.node.body):  # also inside `with handle:` / try
         if isinstance(n, ast.For) and any(isinstance(c, ast.Call) and isinstance(c.func, ast.Attribute) and c.func.attr == "startswith" for c in ast.walk(n)):
-            file_loops.append(n)
+            if not any(isinstance(o, ast.For) and o is not n and any(x is n for x in ast.walk(o)) and o in file_loops for o in file_loops):
+                file_loops.append(n)
     ctx.require_count("R06.6", len(file_loops), 1, rg.where(), "loop over the lines of the GFA file")
     fl = file_loops[0]
     edge_calls = [c for c in walk_own(rg.node) if isinstance(c, ast.Call) and isinstance(c.func, ast.Attribute) and c.func.attr == "add_edge"]
